@@ -85,19 +85,37 @@ func checkLayerArith(c *Ctx, rule string) {
 	} else {
 		c.touch(fnKey(creator))
 		cs := newSumm(p, 0)
+		cs.HelperInline = func(f *ssa.Function) bool { return privateHelper(creator, f) } // the search may live in a helper
 		cp, _ := cs.Function(creator)
 		var badC []string
 		lvParam := ""
 		nCreate, nFound := 0, 0
-		loops := cs.loops(creator)
-		if len(loops) != 1 {
-			badC = append(badC, fmt.Sprintf("%d loops in the level search", len(loops)))
+		var loopEv *Event
+		var enterOf *Event
+		seenL := map[*Loop]bool{}
+		nLoops := 0
+		for _, ps := range cp {
+			for _, e := range ps.Events {
+				if e.Kind == "loop" && !seenL[e.Loop] {
+					seenL[e.Loop] = true
+					nLoops++
+					loopEv = e
+					for _, en := range ps.Events {
+						if en.Kind == "enter" && en.Fn == e.InFn {
+							enterOf = en
+						}
+					}
+				}
+			}
+		}
+		if nLoops != 1 {
+			badC = append(badC, fmt.Sprintf("%d loops in the level search", nLoops))
 		} else {
-			ri := analyseRange(loops[0])
+			ri := analyseRange(loopEv.Loop)
 			if !ri.Full {
 				badC = append(badC, "the search for an existing level does not cover the whole list")
 			}
-			body, _ := cs.LoopBody(creator, loops[0])
+			body, _ := cs.LoopBody(loopEv.InFn, loopEv.Loop)
 			for _, bp := range body {
 				eq := ""
 				for _, cd := range bp.Conds {
@@ -112,15 +130,34 @@ func checkLayerArith(c *Ctx, rule string) {
 						}
 					}
 				}
-				if len(bp.Conds) != 1 {
+				nonBound := 0
+				for _, cd := range bp.Conds {
+					// the loop's own bound (i < len(levels)) does not count
+					isBound := false
+					if a, isLt := ltForm(cd.V); isLt {
+						isBound = true
+						for t := range a.T {
+							if !strings.HasPrefix(t, "iter:") && !strings.HasPrefix(t, "len(") {
+								isBound = false
+							}
+						}
+					}
+					if !isBound {
+						nonBound++
+					}
+				}
+				if nonBound != 1 {
 					badC = append(badC, "the search decides on more than the equality of levels: ["+bp.CondString()+"]")
 				}
-				if strings.HasPrefix(bp.End, "exit-return") {
-					if eq == "" || !strings.Contains(bp.CondString(), ".Level") {
+				if strings.HasPrefix(bp.End, "exit") && eq != "" {
+					if !strings.Contains(bp.CondString(), ".Level") {
 						badC = append(badC, "the search returns a level that was not compared equal to the wanted level")
 					} else {
 						nFound++
 						lvParam = eq
+						if enterOf != nil {
+							lvParam = substParams(eq, enterOf.Fn, enterOf.Args)
+						}
 					}
 				}
 			}
@@ -171,7 +208,7 @@ func checkLayerArith(c *Ctx, rule string) {
 				if isAr {
 					arIdx = i
 				}
-				if isMem {
+				if isMem && !isAr {
 					memIdx = i
 				}
 			}
@@ -192,10 +229,11 @@ func checkLayerArith(c *Ctx, rule string) {
 		if sortIdx < 0 || sortIdx > arIdx {
 			bad = append(bad, "the steps are computed before the levels are sorted")
 		}
-		if memIdx < 0 || memIdx > arIdx {
+		// L3, first form: a separate pass that resets every level's list and refills it in place
+		fused := memIdx < 0
+		if memIdx > arIdx {
 			bad = append(bad, "the totals are computed before the member lists are rebuilt")
 		}
-		// L3
 		if memIdx >= 0 {
 			ml := ps.Events[memIdx].Loop
 			ri := analyseRange(ml)
@@ -216,69 +254,15 @@ func checkLayerArith(c *Ctx, rule string) {
 					if !reset {
 						bad = append(bad, "a level's member list is extended without being reset first")
 					}
-					ri2 := analyseRange(e.Loop)
-					if ri2.Kind != "map" || !ri2.Full || len(e.Loop.Exits) != 1 || !loadsField(ri2.Coll, "pot.LevelList.contributors") {
-						bad = append(bad, "members are not drawn from all recorded contributions")
-					}
-					ib, _ := s.LoopBody(e.InFn, e.Loop)
-					for _, r := range ib {
-						adds := false
-						var addKey string
-						for _, e2 := range r.Events {
-							if e2.Kind == "store" && e2.FKey == "pot.Level.Contributors" && e2.Val.Op == "append" {
-								adds = true
-								addKey = e2.Val.String()
-							}
-						}
-						// the membership test in canonical form: Level - contribution - 1 < 0
-						member, decided := false, false
-						for _, cd := range r.Conds {
-							a, ok := ltForm(cd.V)
-							if !ok {
-								continue
-							}
-							var lv, el int64
-							other := false
-							for t, co := range a.T {
-								switch {
-								case strings.HasSuffix(t, ".Level"):
-									lv = co
-								case strings.HasPrefix(t, "elem@"):
-									el = co
-								default:
-									other = true
-								}
-							}
-							if other {
-								continue
-							}
-							switch {
-							case lv == 1 && el == -1 && a.C == -1: // Level <= contribution
-								member, decided = true, true
-							case lv == -1 && el == 1 && a.C == 0: // contribution < Level
-								member, decided = false, true
-							case lv != 0 && el != 0:
-								bad = append(bad, "membership test is ["+cd.V.String()+"], expected Level <= contribution")
-								decided = true
-								member = adds
-							}
-						}
-						if !decided {
-							bad = append(bad, "a contributor is added or skipped without comparing the level with the contribution")
-						} else if member != adds {
-							bad = append(bad, "membership is inverted: a contributor at or above the level is skipped or one below it is added")
-						}
-						if adds && !strings.Contains(addKey, "key@") {
-							bad = append(bad, "the member added is not the contributor whose contribution was tested: "+addKey)
-						}
-					}
+					bad = append(bad, membershipLoop(s, e, func(t string) bool { return strings.HasSuffix(t, ".Level") }, "pot.Level.Contributors")...)
 				}
 				if inner != 1 {
 					bad = append(bad, "a level's member list is not rebuilt by exactly one pass over the contributions")
 				}
 			}
 		}
-		// L4
+		// L4 (and L3, second form: the list is assigned in the same iteration from a pass over the
+		// contributions, possibly in a helper given the level)
 		al := ps.Events[arIdx].Loop
 		ri := analyseRange(al)
 		if !ri.Full || len(al.Exits) != 1 || !loadsField(ri.Coll, "pot.LevelList.levels") {
@@ -286,13 +270,17 @@ func checkLayerArith(c *Ctx, rule string) {
 		}
 		body, _ := s.LoopBody(ps.Events[arIdx].InFn, al)
 		for _, q := range body {
-			var wg, tot *Event
-			for _, e := range q.Events {
+			var wg, tot, mem *Event
+			iMem, iTot := -1, -1
+			for i, e := range q.Events {
 				if e.Kind == "store" && e.FKey == "pot.Level.Wager" {
 					wg = e
 				}
 				if e.Kind == "store" && e.FKey == "pot.Level.Total" {
-					tot = e
+					tot, iTot = e, i
+				}
+				if e.Kind == "store" && e.FKey == "pot.Level.Contributors" {
+					mem, iMem = e, i
 				}
 			}
 			if wg == nil || tot == nil || q.End != "continue" {
@@ -302,6 +290,38 @@ func checkLayerArith(c *Ctx, rule string) {
 			X := strings.TrimSuffix(wg.Loc, ".Wager")
 			if strings.TrimSuffix(tot.Loc, ".Total") != X {
 				bad = append(bad, "step and total are stored into different levels")
+			}
+			members := X + ".Contributors"
+			if fused {
+				if mem == nil || strings.TrimSuffix(mem.Loc, ".Contributors") != X || iMem > iTot {
+					bad = append(bad, "a level's member list is not rebuilt before its total is computed")
+				} else {
+					members = mem.Val.String()
+					// the pass over the contributions that produced it
+					nIn := 0
+					for _, e := range q.Events[:iMem] {
+						if e.Kind != "loop" {
+							continue
+						}
+						nIn++
+						levelArg := func(t string) bool { return strings.HasSuffix(t, ".Level") }
+						if e.InFn != ps.Events[arIdx].InFn {
+							// a helper given the level: its parameter stands for this level's Level
+							for _, en := range q.Events {
+								if en.Kind == "enter" && en.Fn == e.InFn {
+									fn, args := en.Fn, en.Args
+									levelArg = func(t string) bool {
+										return substParams(t, fn, args) == X+".Level"
+									}
+								}
+							}
+						}
+						bad = append(bad, membershipLoop(s, e, levelArg, "")...)
+					}
+					if nIn != 1 {
+						bad = append(bad, "a level's member list does not come from exactly one pass over the contributions")
+					}
+				}
 			}
 			a := wg.Val.asAff()
 			prev := ""
@@ -339,16 +359,92 @@ func checkLayerArith(c *Ctx, rule string) {
 					}
 				}
 			}
-			want1 := "(" + wg.Val.String() + ")*(len(" + X + ".Contributors))"
-			want2 := "(len(" + X + ".Contributors))*(" + wg.Val.String() + ")"
-			want3 := "(" + X + ".Wager)*(len(" + X + ".Contributors))"
-			want4 := "(len(" + X + ".Contributors))*(" + X + ".Wager)"
-			if tv := tot.Val.String(); tv != want1 && tv != want2 && tv != want3 && tv != want4 {
-				bad = append(bad, "the total stored is "+tv+", expected members x step of the same level")
+			okTot := false
+			for _, step := range []string{wg.Val.String(), X + ".Wager"} {
+				for _, m := range []string{members, X + ".Contributors"} {
+					if tv := tot.Val.String(); tv == "("+step+")*(len("+m+"))" || tv == "(len("+m+"))*("+step+")" {
+						okTot = true
+					}
+				}
+			}
+			if !okTot {
+				bad = append(bad, "the total stored is "+tot.Val.String()+", expected members x step of the same level")
 			}
 		}
 	}
 	c.check(len(bad) == 0 && nArith > 0, rule, fnKey(builder), p.FnPos(builder), "levels sorted ascending; members = every contribution at or above the level; step = level minus previous level; total = members x step", "the layers are not built as nested side pots", uniq(bad, 4)...)
+}
+
+// membershipLoop checks one pass over the recorded contributions: a full range over the map, a
+// contributor being added exactly when level <= contribution (canonical form, either operand
+// order), the contributor added being the map key. isLevel recognises the level's term.
+func membershipLoop(s *Summ, e *Event, isLevel func(term string) bool, storeKey string) []string {
+	var bad []string
+	ri2 := analyseRange(e.Loop)
+	if ri2.Kind != "map" || !ri2.Full || len(e.Loop.Exits) != 1 || !loadsField(ri2.Coll, "pot.LevelList.contributors") {
+		bad = append(bad, "members are not drawn from all recorded contributions")
+	}
+	ib, _ := s.LoopBody(e.InFn, e.Loop)
+	for _, r := range ib {
+		adds := false
+		var addKey string
+		for _, e2 := range r.Events {
+			if e2.Kind == "store" && e2.Val.Op == "append" && (storeKey == "" || e2.FKey == storeKey) && strings.Contains(e2.Val.String(), "key@") {
+				adds = true
+				addKey = e2.Val.String()
+			}
+		}
+		for k, v := range r.Store {
+			if strings.HasPrefix(k, "backedge:") && v.Op == "append" && strings.Contains(v.String(), "key@") {
+				adds = true
+				addKey = v.String()
+			}
+		}
+		member, decided := false, false
+		for _, cd := range r.Conds {
+			a, ok := ltForm(cd.V)
+			if !ok {
+				continue
+			}
+			var lv, el int64
+			other := false
+			for t, co := range a.T {
+				switch {
+				case strings.HasPrefix(t, "elem@"):
+					el = co
+				case isLevel(t):
+					lv = co
+				default:
+					other = true
+				}
+			}
+			if other {
+				continue
+			}
+			switch {
+			case lv == 1 && el == -1 && a.C == -1: // level <= contribution
+				member, decided = true, true
+			case lv == -1 && el == 1 && a.C == 0: // contribution < level
+				member, decided = false, true
+			case lv != 0 && el != 0:
+				bad = append(bad, "membership test is ["+cd.V.String()+"], expected Level <= contribution")
+				decided = true
+				member = adds
+			}
+		}
+		if !decided {
+			bad = append(bad, "a contributor is added or skipped without comparing the level with the contribution")
+		} else if member != adds {
+			bad = append(bad, "membership is inverted: a contributor at or above the level is skipped or one below it is added")
+		}
+		if adds && !strings.Contains(addKey, "key@") {
+			bad = append(bad, "the member added is not the contributor whose contribution was tested: "+addKey)
+		}
+		if r.End != "continue" {
+			bad = append(bad, "the pass over the contributions can stop early")
+		}
+	}
+	return bad
 }
 
 func tokenIsExported(name string) bool { return name != "" && name[0] >= 'A' && name[0] <= 'Z' }
